@@ -31,12 +31,23 @@ from aiomysensors.persistence import Persistence
 from harness import gwdriver
 from aiomysensors import Gateway
 d, old, new, prefail = sys.argv[1], json.loads(sys.argv[2]), json.loads(sys.argv[3]), sys.argv[4] == "1"
+mid = json.loads(sys.argv[5]) if len(sys.argv) > 5 else None
 path = os.path.join(d, "live")
 async def main():
     gw = Gateway(gwdriver.FakeTransport())
     pers = Persistence(gw.nodes, path)
     if old is not None:
         gwdriver.build_registry(gw, old)
+        await pers.save()
+        shutil.copy(path, os.path.join(d, "OLD.bin"))
+    if mid is not None:
+        # a new session: a fresh object loads the file, the registry changes, a save succeeds (that is the
+        # "last successfully saved" registry from here on), then the save that is interrupted
+        gw = Gateway(gwdriver.FakeTransport())
+        pers = Persistence(gw.nodes, path)
+        await pers.load()
+        gw.nodes.clear()
+        gwdriver.build_registry(gw, mid)
         await pers.save()
         shutil.copy(path, os.path.join(d, "OLD.bin"))
     if prefail:
@@ -54,6 +65,12 @@ async def main():
         open(os.path.join(d, "PREFAIL.txt"), "w").write(failed)
     gw.nodes.clear()
     gwdriver.build_registry(gw, new)
+    # whatever else the library keeps next to the file at this point is part of every crash state
+    os.mkdir(os.path.join(d, "AMBIENT"))
+    for name in os.listdir(d):
+        full = os.path.join(d, name)
+        if os.path.isfile(full) and name not in ("live", "OLD.bin", "PREFAIL.txt", "strace.log"):
+            shutil.copy(full, os.path.join(d, "AMBIENT", name))
     open(os.path.join(d, "MARK_BEGIN"), "w").close()
     res = "ok"
     try:
@@ -72,12 +89,13 @@ def _unhex(s: str) -> bytes:
     return bytes(int(h, 16) for h in re.findall(r"\\x([0-9a-f]{2})", s))
 
 
-def record_ops(old, new, workroot: str, prefail: bool = False) -> dict:
+def record_ops(old, new, workroot: str, prefail: bool = False, mid=None) -> dict:
     d = tempfile.mkdtemp(prefix="crash-", dir=workroot)
     log = os.path.join(d, "strace.log")
     env = dict(os.environ, PYTHONPATH=os.pathsep.join([common.VERIF, common.REPO_SRC]), PYTHONDONTWRITEBYTECODE="1")
     proc = subprocess.run(["strace", "-f", "--seccomp-bpf", "-e", "trace=" + SYSCALLS, "-xx", "-s", "1000000", "-o", log,
-                           sys.executable, "-c", CHILD, d, json.dumps(old), json.dumps(new), "1" if prefail else "0"],
+                           sys.executable, "-c", CHILD, d, json.dumps(old), json.dumps(new), "1" if prefail else "0"]
+                          + ([json.dumps(mid)] if mid is not None else []),
                           env=env, cwd=d, capture_output=True, text=True, timeout=300)
     if proc.returncode != 0:
         common.machinery_failure("strace child failed: " + proc.stderr[-1500:])
@@ -188,8 +206,14 @@ def record_ops(old, new, workroot: str, prefail: bool = False) -> dict:
         newbytes = None
     with open(os.path.join(d, "SAVERES.txt")) as fil:
         saveres = fil.read()
+    ambient = {}
+    amb = os.path.join(d, "AMBIENT")
+    if os.path.isdir(amb):
+        for name in os.listdir(amb):
+            with open(os.path.join(amb, name), "rb") as fil:
+                ambient[name] = fil.read()
     shutil.rmtree(d, ignore_errors=True)
-    return {"ops": ops, "bufs": bufs, "old": oldbytes, "new": newbytes, "saveres": saveres}
+    return {"ops": ops, "bufs": bufs, "old": oldbytes, "new": newbytes, "saveres": saveres, "ambient": ambient}
 
 
 def complete_on_return(loop, rec: dict, newp, workdir: str) -> str | None:
@@ -221,6 +245,9 @@ def crash_states(rec: dict, block: int, workdir: str) -> tuple[list, dict]:
 
 
 def materialise(state: dict, rec: dict, d: str) -> None:
+    for name, data in rec.get("ambient", {}).items():      # files that were there before the save began
+        with open(os.path.join(d, name), "wb") as fil:
+            fil.write(data)
     for name, runs in state["files"]:
         data = bytearray()
         for src, first, count in runs:
@@ -260,7 +287,7 @@ REGS = {
     "large": [node(i, sn="node %d" % i, ch=[[c, {"type": 6, "desc": "", "vals": [[0, str(i * c)]]}] for c in range(3)]) for i in range(1, 9)],
 }
 PAIRS_QUICK = [("one", "two"), ("two", "one"), ("one", "one-changed"), (None, "one"), ("empty", "one"),
-               ("one", "two", "after-failed-save")]
+               ("one", "two", "after-failed-save"), ("two", "large", "after-load")]
 PAIRS_THOROUGH = PAIRS_QUICK + [("one", "empty"), ("two", "large"), ("large", "two"), ("large", "one"), ("one-changed", "one")]
 
 
@@ -311,8 +338,14 @@ def check(prop: str) -> int:
             old = REGS[oldname] if oldname else None
             sub = tempfile.mkdtemp(prefix="pair-", dir=workdir)
             tlc.stage(sub)
-            rec = record_ops(old, REGS[newname], sub, prefail=(len(pair) > 2))
-            if not rec["ops"] or len(pair) > 2:
+            mode = pair[2] if len(pair) > 2 else ""
+            if mode == "after-load":
+                # session: load the saved file, change, save, then the interrupted save: "old" is the registry saved last
+                rec = record_ops(old, REGS[newname], sub, mid=REGS["one-changed"])
+                old = REGS["one-changed"]
+            else:
+                rec = record_ops(old, REGS[newname], sub, prefail=(mode == "after-failed-save"))
+            if not rec["ops"] or mode == "after-failed-save":
                 return old, rec, [], {"distinct": 0, "generated": 0, "depth": 0}
             states, summ = crash_states(rec, block, sub)
             return old, rec, states, summ
@@ -323,15 +356,17 @@ def check(prop: str) -> int:
             oldname, newname = pair[0], pair[1]
             bad = complete_on_return(loop, rec, _proj_of(REGS[newname]), workdir)
             if bad:
-                rep.violation({"live": "save-incomplete-on-return", "after_failed_save": len(pair) > 2},
+                rep.violation({"live": "save-incomplete-on-return", "after_failed_save": pair[2:] == ("after-failed-save",)},
                               {"kind": "save-crash", "old": old, "new": REGS[newname], "ops": rec["ops"], "crash_state": {"pc": 0, "part": -1, "files": []},
                                "load_outcome": bad},
-                              f"saving {newname} over {oldname}{' after an earlier save failed for lack of space' if len(pair) > 2 else ''}: {bad}; "
+                              f"saving {newname} over {oldname}{' after an earlier save failed for lack of space' if pair[2:] == ('after-failed-save',) else ''}: {bad}; "
                               f"operations recorded: {[o['op'] for o in rec['ops']]}")
                 continue
-            if len(pair) > 2:
+            if pair[2:] == ("after-failed-save",):
                 total += 1
                 continue
+            if pair[2:] == ("after-load",):
+                oldname = "one-changed (saved after loading " + str(pair[0]) + ")"
             rep.add_tlc(f"SaveCrash old={oldname} new={newname} block={block}", summ,
                         {"recorded_ops": [o["op"] + (":" + o["path"] if o["path"] else "") for o in rec["ops"]]})
             # reference projections of old / new
@@ -348,6 +383,7 @@ def check(prop: str) -> int:
                 if bad:
                     sig = signature(st, rec, bad)
                     rep.violation(sig, {"kind": "save-crash", "old": old, "new": REGS[newname], "ops": rec["ops"],
+                                        "mode": pair[2] if len(pair) > 2 else "", "first": REGS[pair[0]] if pair[0] else None,
                                         "crash_state": st, "load_outcome": bad},
                                   f"crash after operation {st['pc'] - 1} of {len(rec['ops'])} (+{st['part']} bytes of the next write) "
                                   f"saving {newname} over {oldname}: load gives {bad}; live file: {sig['live']}")
@@ -381,7 +417,10 @@ def replay(doc: dict) -> int:
     loop = asyncio.new_event_loop()
     try:
         tlc.stage(workdir)
-        rec = record_ops(doc["old"], doc["new"], workdir)
+        if doc.get("mode") == "after-load":
+            rec = record_ops(doc.get("first"), doc["new"], workdir, mid=doc["old"])
+        else:
+            rec = record_ops(doc["old"], doc["new"], workdir)
         print("operations of save now:", [[o["op"], o["path"] or o["fd"], o["len"]] for o in rec["ops"]])
         newp = _proj_of(doc["new"])
         oldp = _proj_of(doc["old"]) if doc["old"] is not None else None
